@@ -214,8 +214,100 @@ func (b *Builder) View(fn *ssa.Function) (view *ssa.Function, err error) {
 		}
 		return nil, fmt.Errorf("iview: closure %s not reached from the view of %s", fn, root)
 	}
-	v := b.build(fn, nil, map[ssa.Value]ssa.Value{})
+	v := b.build(fn, nil, nil)
+	postTree(v)
 	return v, nil
+}
+
+// expandBody inlines calls in the (already cloned) body of nf, threads the jumps this exposes,
+// gives nf views of its closures and turns `go f(…)` of private functions into closures.
+// fn is the function nf was cloned from (for the inlining policy).
+func (b *Builder) expandBody(nf *ssa.Function, fn *ssa.Function) {
+	c := &cloner{b: b, nf: nf, vm: map[ssa.Value]ssa.Value{}, bm: map[*ssa.BasicBlock]*ssa.BasicBlock{}}
+	// inline
+	chain := map[ssa.Instruction][]*ssa.Function{}
+	for changed := true; changed; {
+		changed = false
+		for _, blk := range nf.Blocks {
+			for i, in := range blk.Instrs {
+				call, ok := in.(*ssa.Call)
+				if !ok {
+					continue
+				}
+				g := call.Call.StaticCallee()
+				if g == nil || !b.inlinable(fn, call, g, chain[in]) {
+					continue
+				}
+				c.inlineAt(blk, i, call, g, chain)
+				b.Inlined[nf] = append(b.Inlined[nf], g.Name())
+				changed = true
+				break
+			}
+			if changed {
+				break
+			}
+		}
+	}
+	// jump threading: an inlined `return v, err` followed by the caller's `if err != nil` is a
+	// φ tested in the continuation; route every edge whose outcome is known straight to its target
+	if len(b.Inlined[nf]) > 0 {
+		finish(nf)
+		for i := 0; i < 64 && threadOnce(nf); i++ {
+			finish(nf)
+		}
+		if fuseBlocks(nf) {
+			finish(nf)
+		}
+	}
+	// closures: clone each anonymous function created in the (inlined) body, binding the view
+	for _, blk := range nf.Blocks {
+		for _, in := range blk.Instrs {
+			// a function literal without captures is a plain function value
+			if _, isMC := in.(*ssa.MakeClosure); !isMC {
+				var rands []*ssa.Value
+				for _, p := range in.Operands(rands) {
+					af, ok := (*p).(*ssa.Function)
+					if !ok || af.Parent() == nil || len(af.Blocks) == 0 {
+						continue
+					}
+					if _, isView := b.OrigOf[af]; isView {
+						continue
+					}
+					var av *ssa.Function
+					if v, done := b.cache[af]; done && v != nil {
+						av = v
+					} else {
+						av = b.build(af, nf, nil)
+					}
+					*p = av
+					nf.AnonFuncs = append(nf.AnonFuncs, av)
+				}
+			}
+			mc, ok := in.(*ssa.MakeClosure)
+			if !ok {
+				continue
+			}
+			af, ok := mc.Fn.(*ssa.Function)
+			if !ok {
+				continue
+			}
+			var av *ssa.Function
+			if _, isView := b.OrigOf[af]; isView {
+				continue
+			}
+			if v, done := b.cache[af]; done && v != nil {
+				av = v
+			} else {
+				av = b.build(af, nf, nil)
+			}
+			mc.Fn = av
+			nf.AnonFuncs = append(nf.AnonFuncs, av)
+		}
+	}
+	finish(nf) // block/parent links are needed below
+	if b.goClosures(nf, fn) {
+		finish(nf)
+	}
 }
 
 // build clones fn (a top-level function or, recursively, one of its closures) and inlines.
@@ -251,59 +343,7 @@ func (b *Builder) build(fn *ssa.Function, parentView *ssa.Function, outer map[ss
 	if fn.Recover != nil {
 		nf.Recover = c.bm[fn.Recover]
 	}
-	// inline
-	chain := map[ssa.Instruction][]*ssa.Function{}
-	for changed := true; changed; {
-		changed = false
-		for _, blk := range nf.Blocks {
-			for i, in := range blk.Instrs {
-				call, ok := in.(*ssa.Call)
-				if !ok {
-					continue
-				}
-				g := call.Call.StaticCallee()
-				if g == nil || !b.inlinable(fn, call, g, chain[in]) {
-					continue
-				}
-				c.inlineAt(blk, i, call, g, chain)
-				b.Inlined[nf] = append(b.Inlined[nf], g.Name())
-				changed = true
-				break
-			}
-			if changed {
-				break
-			}
-		}
-	}
-	// jump threading: an inlined `return v, err` followed by the caller's `if err != nil` is a
-	// φ tested in the continuation; route every edge whose outcome is known straight to its target
-	if len(b.Inlined[nf]) > 0 {
-		finish(nf)
-		for i := 0; i < 64 && threadOnce(nf); i++ {
-			finish(nf)
-		}
-	}
-	// closures: clone each anonymous function created in the (inlined) body, binding the view
-	for _, blk := range nf.Blocks {
-		for _, in := range blk.Instrs {
-			mc, ok := in.(*ssa.MakeClosure)
-			if !ok {
-				continue
-			}
-			af, ok := mc.Fn.(*ssa.Function)
-			if !ok {
-				continue
-			}
-			var av *ssa.Function
-			if v, done := b.cache[af]; done && v != nil {
-				av = v
-			} else {
-				av = b.build(af, nf, c.vm)
-			}
-			mc.Fn = av
-			nf.AnonFuncs = append(nf.AnonFuncs, av)
-		}
-	}
+	b.expandBody(nf, fn)
 	finish(nf)
 	if err := Check(nf); err != nil {
 		panic(err)
@@ -861,6 +901,70 @@ func threadOnce(nf *ssa.Function) bool {
 	return false
 }
 
+// fuseBlocks merges a block that ends in a Jump into its successor when that successor has no
+// other predecessor: inlining splits a block at every call site, and the rules that look at what
+// one block does (a step of a loop body) must see the straight-line code as one block again.
+func fuseBlocks(nf *ssa.Function) bool {
+	changed := false
+	for again := true; again; {
+		again = false
+		for _, a := range nf.Blocks {
+			if len(a.Instrs) == 0 || len(a.Succs) != 1 {
+				continue
+			}
+			if _, ok := a.Instrs[len(a.Instrs)-1].(*ssa.Jump); !ok {
+				continue
+			}
+			b := a.Succs[0]
+			if b == a || len(b.Preds) != 1 || b == nf.Blocks[0] || b == nf.Recover || a == nf.Recover {
+				continue
+			}
+			// single-predecessor φs are copies
+			var rest []ssa.Instruction
+			for _, in := range b.Instrs {
+				if phi, ok := in.(*ssa.Phi); ok {
+					for _, blk := range nf.Blocks {
+						for _, u := range blk.Instrs {
+							var rands []*ssa.Value
+							for _, p := range u.Operands(rands) {
+								if *p == ssa.Value(phi) {
+									*p = phi.Edges[0]
+								}
+							}
+						}
+					}
+					continue
+				}
+				rest = append(rest, in)
+			}
+			a.Instrs = a.Instrs[:len(a.Instrs)-1]
+			for _, in := range rest {
+				setField(in, "block", a)
+				a.Instrs = append(a.Instrs, in)
+			}
+			a.Succs = b.Succs
+			for _, s := range a.Succs {
+				for k, p := range s.Preds {
+					if p == b {
+						s.Preds[k] = a
+					}
+				}
+			}
+			b.Succs, b.Preds, b.Instrs = nil, nil, nil
+			var kept []*ssa.BasicBlock
+			for _, x := range nf.Blocks {
+				if x != b {
+					kept = append(kept, x)
+				}
+			}
+			nf.Blocks = kept
+			again, changed = true, true
+			break
+		}
+	}
+	return changed
+}
+
 // finish renumbers blocks and registers, sets parents, rebuilds referrers and the dominator tree.
 func finish(nf *ssa.Function) {
 	// drop blocks that became unreachable (a threaded branch whose other side is never taken)
@@ -877,6 +981,9 @@ func finish(nf *ssa.Function) {
 			}
 		}
 		walk(nf.Blocks[0])
+		if nf.Recover != nil {
+			walk(nf.Recover) // entered after a recovered panic, not by an edge
+		}
 		var kept []*ssa.BasicBlock
 		for _, b := range nf.Blocks {
 			if reach[b] {
@@ -983,6 +1090,13 @@ func buildDom(nf *ssa.Function) {
 		}
 		order = append(order, b)
 	}
+	// the recover block has no predecessor; like go/ssa, hang it below the entry block
+	rec := nf.Recover
+	if rec != nil && len(rec.Preds) == 0 {
+		seen[nf.Blocks[0].Index] = true
+		dfs(rec)
+		seen[nf.Blocks[0].Index] = false
+	}
 	dfs(nf.Blocks[0])
 	rpoNum := make([]int, n)
 	for i := range rpoNum {
@@ -1013,6 +1127,9 @@ func buildDom(nf *ssa.Function) {
 				continue
 			}
 			var nw *ssa.BasicBlock
+			if b == rec && len(b.Preds) == 0 {
+				nw = entry
+			}
 			for _, p := range b.Preds {
 				if rpoNum[p.Index] < 0 || idom[p.Index] == nil {
 					continue
